@@ -74,7 +74,7 @@ def q_compact(env, name=None):
                 m = s.model()
                 inp = concrete_input(m, z3.is_true(m.eval(valid(rt, st), model_completion=True)))
                 nat = native(inp.hex(), None)
-                item = {"message": f"from_compact_bytes panics: {r.msg}", "request": {"compact": inp.hex()}, "native": nat, "expected": "any"}
+                item = {"message": f"from_compact_bytes panics: {r.msg}", "request": {"tx": {"version": 1, "locktime": 0, "inputs": [], "outputs": []}, "ops": [{"op": "compact_roundtrip", "bytes": inp.hex(), "ri": None}]}, "op_index": 0, "native": nat, "expected": "any"}
                 if any("panic" in v for v in nat.values()):
                     qr.violations.append(item)
                 else:
@@ -90,7 +90,7 @@ def q_compact(env, name=None):
             inp = concrete_input(m, v)
             nat = native(inp.hex(), None)
             want_ok = 27 <= inp[0] <= 34 and v
-            item = {"message": f"compact header acceptance differs from 27..=34 (header {inp[0]}: library {'accepts' if accepted else 'rejects'})", "request": {"compact": inp.hex()}, "native": nat,
+            item = {"message": f"compact header acceptance differs from 27..=34 (header {inp[0]}: library {'accepts' if accepted else 'rejects'})", "request": {"tx": {"version": 1, "locktime": 0, "inputs": [], "outputs": []}, "ops": [{"op": "compact_roundtrip", "bytes": inp.hex(), "ri": None}]}, "op_index": 0, "native": nat,
                     "expected": "ok" if want_ok else "err"}
             if any(("ok" in x) != want_ok for x in nat.values()):
                 qr.violations.append(item)
@@ -147,7 +147,7 @@ def q_compact(env, name=None):
                         exp_hdr = inp[0] if ri is None else 27 + (1 if ri[0] else 0) + (2 if ri[1] else 0) + (4 if ri[2] else 0)
                         exp = (bytes([exp_hdr]) + inp[1:]).hex()
                         item = {"message": f"compact signature does not round-trip ({'own recovery data' if mode == 'own' else 'explicit RecoveryInfo ' + str(ri)}): header/recovery/compression changed",
-                                "request": {"compact": inp.hex(), "ri": ri}, "expected": exp, "native": nat}
+                                "request": {"tx": {"version": 1, "locktime": 0, "inputs": [], "outputs": []}, "ops": [{"op": "compact_roundtrip", "bytes": inp.hex(), "ri": ri}]}, "op_index": 0, "expected": exp, "native": nat}
                         if any(v.get("ok") != exp for v in nat.values()):
                             qr.violations.append(item)
                         else:
@@ -173,7 +173,7 @@ def q_compact(env, name=None):
             if r.kind == "panic" or r.ret.variant == "Ok":
                 inp = bytes([31] + [0x11] * (n - 1)) if n else b""
                 nat = native(inp.hex(), None)
-                item = {"message": f"from_compact_bytes on a {n}-byte buffer: {'panic ' + str(r.msg) if r.kind == 'panic' else 'accepted'}", "request": {"compact": inp.hex()}, "native": nat, "expected": "err"}
+                item = {"message": f"from_compact_bytes on a {n}-byte buffer: {'panic ' + str(r.msg) if r.kind == 'panic' else 'accepted'}", "request": {"tx": {"version": 1, "locktime": 0, "inputs": [], "outputs": []}, "ops": [{"op": "compact_roundtrip", "bytes": inp.hex(), "ri": None}]}, "op_index": 0, "native": nat, "expected": "err"}
                 if any("err" not in v for v in nat.values()):
                     if len(qr.violations) < MAX_VIOLATIONS:
                         qr.violations.append(item)
@@ -596,7 +596,7 @@ def q_der(env, name=None):
                 inp = real_der(lb)
                 want = inp
             nat = native_sig({"op": "der_roundtrip", "bytes": inp.hex()})
-            item = {"message": f"from_der: {what} (last byte {lb:#04x})", "request": {"der": inp.hex()}, "expected": want.hex(), "native": nat}
+            item = {"message": f"from_der: {what} (last byte {lb:#04x})", "request": {"tx": {"version": 1, "locktime": 0, "inputs": [], "outputs": []}, "ops": [{"op": "der_roundtrip", "bytes": inp.hex()}]}, "op_index": 0, "expected": want.hex(), "native": nat}
             if any(v.get("ok") != want.hex() for v in nat.values()):
                 qr.violations.append(item)
             else:
@@ -661,7 +661,7 @@ def q_der(env, name=None):
             else:
                 der = real_der(0x22)
             nat = native_sig({"op": "sighash_sig_roundtrip", "bytes": (der + bytes([fl])).hex()})
-            item = {"message": f"SighashSignature::from_bytes(DER ++ {fl:#04x}) {bad}", "request": {"bytes": (der + bytes([fl])).hex()}, "expected": (der + bytes([fl])).hex(), "native": nat}
+            item = {"message": f"SighashSignature::from_bytes(DER ++ {fl:#04x}) {bad}", "request": {"tx": {"version": 1, "locktime": 0, "inputs": [], "outputs": []}, "ops": [{"op": "sighash_sig_roundtrip", "bytes": (der + bytes([fl])).hex()}]}, "op_index": 0, "expected": (der + bytes([fl])).hex(), "native": nat}
             if any(v.get("ok") != (der + bytes([fl])).hex() for v in nat.values()):
                 qr.violations.append(item)
             else:
